@@ -8,9 +8,9 @@
    the BCL walker's reflection mechanics are explored by the correspondence streams, not modelled. *)
 From Coq Require Import String List Bool Arith.
 From J5V.lib Require Import Outcome.
-From J5V.gen Require SetExtGen.
+From J5V.gen Require SetExtGen PanicGen.
 From J5V.model Require Import CmpbFields.
-From J5V.proofs Require Import CmpbFieldsProofs.
+From J5V.proofs Require Import CmpbFieldsProofs CmpbPanicProofs.
 Import ListNotations.
 Local Open Scope string_scope.
 
@@ -94,6 +94,11 @@ Theorem C07_import_paths_ok :
   forallb (fun i => negb (String.eqb (imp_path i) "") && has_slash (imp_path i)) (IRefFile :: const_imps) = true.
 Proof. exact import_paths_ok. Qed.
 Print Assumptions C07_import_paths_ok.
+
+(* every explicit panic( call in the anchored files is a model Panic site or a reviewed printer-side site *)
+Theorem C07_panic_sites_agree : map fst model_panic_sites = PanicGen.sites.
+Proof. exact panic_sites_agree. Qed.
+Print Assumptions C07_panic_sites_agree.
 
 (* ---- non-vacuity: concrete members of the language exercising rules, list rules, wrappers *)
 Example C07_example :
